@@ -4,7 +4,7 @@
    the code before the repair; [spec_equals]/[nodup_by] are Spec/RdataEqS.v. *)
 From QV Require Import Base.ListX Model.NameWire Model.RdataM Model.RdataSetM Spec.NameRepr
   Spec.RdataFormatS Spec.RdataEqS Proofs.RdNameEqP Proofs.RdataEqSP Proofs.RdataEqP Proofs.RdataSetP
-  Proofs.RdataEqFullP.
+  Proofs.RdataEqFullP Proofs.RdataNodupP.
 
 (* The characterisation (octet equality, except that the names of the pre-RFC 3597
    name-bearing types compare label-wise without ASCII case when both RDATA are valid;
@@ -76,6 +76,22 @@ Theorem c19_set : forall c t be rs, Forall small rs -> Forall wf_bytes rs ->
      set_iter be inner = nodup_by (spec_equals c t) [] rs).
 Proof. exact set_full. Qed.
 
+(* What "nodup_by spec_equals" means (so c19_set says what the property says): what an RRset
+   keeps is a subsequence of the inputs (insertion order, nothing else), its members are pairwise
+   unequal, every input has an equal member in it, and each kept member is the FIRST input of
+   its equality class. *)
+Theorem c19_set_meaning : forall c t l,
+  let k := nodup_by (spec_equals c t) [] l in
+  subseq k l /\ pairwise_ne (spec_equals c t) k /\
+  (forall x, In x l -> exists y, In y k /\ spec_equals c t x y = true) /\
+  (forall y, In y k -> exists pre post, l = pre ++ y :: post /\
+                       forall z, In z pre -> spec_equals c t y z = false).
+Proof.
+  intros c t l.
+  exact (nodup_by_meaning (spec_equals c t) (spec_equals_refl c t)
+           (spec_equals_trans c t) l).
+Qed.
+
 (* RdataSetOwned::insert (src/rr/rdata_set.rs:135-146) on a set holding [kept]: the RDATA is
    appended, and `true` returned, iff no member equals it; iteration order is insertion order. *)
 Theorem c19_insert : forall c t be kept r inner' flag,
@@ -128,5 +144,6 @@ Print Assumptions c19_total.
 Print Assumptions c19_laws.
 Print Assumptions c19_octetwise.
 Print Assumptions c19_set.
+Print Assumptions c19_set_meaning.
 Print Assumptions c19_insert.
 Print Assumptions c19_sym_refuted_prefix.
